@@ -1,5 +1,6 @@
 import Lemmas.Rev.Cycles
 import Lemmas.Rev.Bridge
+import Model.Rev.Memo
 /-!
 # C15 — a history with a cycle is always rejected, an acyclic one never
 
@@ -322,5 +323,57 @@ example : isErr (load f1) .cycle = true := by decide +kernel
 example : isOk (load [⟨"a", [], [], []⟩, ⟨"b", ["a"], [], []⟩, ⟨"c", ["a"], ["b"], []⟩]) = true := by decide +kernel
 example : isErr (load [⟨"a", [], ["c"], []⟩, ⟨"b", ["a"], [], []⟩, ⟨"c", ["b"], [], []⟩]) .depCycle = true := by
   decide +kernel
+
+/-! ### a refused history stays refused: every later read of the same object -/
+
+theorem memo_run_refused (h : Hist) (o : LoadOpts) (e : Err) (hl : load h o = .error e) :
+    ∀ (as : List Accessor), Memo.run h o {} as = as.map (fun _ => .error e) := by
+  intro as
+  induction as with
+  | nil => rfl
+  | cons a rest ih =>
+    simp only [Memo.run, Memo.step, hl, List.map_cons]
+    exact congrArg _ ih
+
+/-- **A cyclic history is refused by every read, not only by the first**: on a fresh `RevisionMap`
+object, whatever sequence of `_revision_map` / `heads` / `bases` / `_real_heads` / `_real_bases`
+reads is made (and so `get_heads()`, `get_bases()`, `get_current_head()`, which only read them),
+every one of them raises when the links written in the files contain a directed cycle — nothing
+of the rejected graph is ever published (seeded change C15-l published the four tuples before
+the cycle check, so the second read answered). -/
+theorem cyclic_refused_every_read {h : Hist} {o : LoadOpts} (hu : (h.map (·.id)).Nodup)
+    (hc : HasCycle (parents h) (ids h)) (as : List Accessor) :
+    ∀ r ∈ Memo.run h o {} as, ∃ e, r = .error e := by
+  cases hl : load h o with
+  | error e =>
+    intro r hr
+    rw [memo_run_refused h o e hl as] at hr
+    obtain ⟨_, _, he⟩ := List.mem_map.mp hr
+    exact ⟨e, he.symm⟩
+  | ok m =>
+    exfalso
+    apply cyclic_rejected hl
+    have hidseq : m.ids = ids h := by
+      obtain ⟨m1, _, hp1, _, _, _, _, hids, _⟩ := load_graph hl
+      obtain ⟨_, _, _, _, _, hids1, _⟩ := phase1_graph hp1 hu
+      rw [hids, hids1]; rfl
+    obtain ⟨S, hne, hS⟩ := hc
+    refine ⟨S, hne, ?_⟩
+    intro x hx
+    obtain ⟨hxi, p, hp, hpS⟩ := hS x hx
+    exact ⟨by rw [hidseq]; exact hxi, p, (allDownOf_mem_iff_parents hl hu x p).mpr hp, hpS⟩
+
+/-- and an accepted history is loaded once: every read answers from the same map -/
+theorem memo_run_loaded (h : Hist) (o : LoadOpts) (m : LMap) (hl : load h o = .ok m) :
+    ∀ (as : List Accessor), Memo.run h o {} as = as.map (fun a => .ok (a.read m)) := by
+  have hs : ∀ (as : List Accessor), Memo.run h o { loaded := some m } as = as.map (fun a => .ok (a.read m)) := by
+    intro as
+    induction as with
+    | nil => rfl
+    | cons a rest ih => simp only [Memo.run, Memo.step, List.map_cons]; exact congrArg _ ih
+  intro as
+  cases as with
+  | nil => rfl
+  | cons a rest => simp only [Memo.run, Memo.step, hl, List.map_cons]; exact congrArg _ (hs rest)
 
 end C15
